@@ -431,7 +431,7 @@ def bounds_and_latest(ck, mod):
             if got != want or not okl or not oko:
                 bad.append((combo, got, want, okl, oko))
     ck.enumerations.append(("dmd.bounds.scan", n, len(bad), bad[:3]))
-    ck.struct("dmd.bounds.scan", not bad, "get_bounds deviates: (files, got, expected, listing flags ok, read-only ok) %s" % (bad[:3],), {"no_input": False})
+    ck.struct("dmd.bounds.scan", not bad, "get_bounds deviates: (files, got, expected, listing flags ok, read-only ok) %s" % (bad[:3],), {})
     # read_latest
     rec = []
     self_ = types.SimpleNamespace(get_bounds=lambda: (5, 77), read=lambda *a, **k: (rec.append((a, k)), "RESULT")[1])
